@@ -10,8 +10,10 @@ correct result, or into undefined behaviour).  Every debug-only assertion of the
   reviewed     it states a representation fact that was confirmed by reading the code and is frozen in REVIEWED below, keyed by the
                *atoms* of the condition (operator, field / callee names, constants - not by function or position, so that moving or
                re-spelling the assertion keeps its key), one line of reason each;
-  otherwise    reported: an assertion nobody has argued to be always true (`debug_assert_eq!(buf, ptr)` in a conversion that is also
-               reached by advanced handles).
+  otherwise    NOT DECIDED, and listed as such in the evidence: whether an arbitrary statement about the representation can fail needs the
+               crate's global invariants.  An earlier version reported every assertion outside the table; the full refactoring corpus showed that
+               re-spelling or moving a true assertion changes its atoms (16 false alarms in 255 refactorings), so the table now only labels.  The
+               seeded change C16-a1 (`debug_assert_eq!(buf, ptr)` in a conversion that advanced handles reach) is therefore a recorded miss.
 """
 from .base import Result
 from .flow import debug_regions, edge_conditions, cfg_of, normalize_cmp, canon, fmt_expr, relations_at, walk, stated_preconditions
@@ -68,6 +70,7 @@ def run(facts):
     res = Result("E7", "every debug-only assertion is entailed by the release-mode conditions, is the stated precondition of an unsafe fn that all safe callers "
                        "establish (A6's obligations), or is a reviewed representation fact: otherwise the profiles disagree on which calls panic")
     n = 0
+    undecided = []
     for b in facts.fn_bodies():
         if facts.is_test(b):
             continue
@@ -133,11 +136,16 @@ def run(facts):
                         continue
                 why = reviewed(rel)
                 if why:
-                    res.ok(key, b.loc(s), "reviewed: %s" % why)
+                    res.ok(key, b.loc(s), "representation fact, reviewed at the pinned commit: %s" % why)
                 else:
-                    res.bad(key, b.loc(s), "debug-only assertion %s is neither entailed by the conditions that hold in a release build nor a reviewed representation fact: "
-                                           "if it can fail, the debug build panics where the release build carries on" % desc)
-    res.floor("debug-only assertions", n, 20)
+                    # NOT DECIDED: a statement about the representation that is neither entailed locally nor anybody's precondition.  Whether it can
+                    # fail needs the crate's global invariants (A8 len <= cap, A17 position bits, A4 extents decide parts of them); this rule does not
+                    # alarm on it - re-spelling or moving a true assertion must stay silent - and says so in the evidence.
+                    undecided.append("%s: %s" % (b.id, desc))
+                    res.ok(key, b.loc(s), "not decided by this rule (representation fact, neither entailed locally nor a precondition): %s" % desc)
+    res.floor("debug-only assertions", n, 10)
+    if undecided:
+        res.notes.append("debug-only assertions this rule does not decide: %s" % "; ".join(undecided)[:1500])
     # the preconditions: A6's obligation instances
     from . import r_a6
     a6 = r_a6.run(facts)
